@@ -398,6 +398,26 @@ class _Inliner:
                             for b in body:
                                 ast.fix_missing_locations(b)
                             expanded = self._stmts(body, cls_name, current, depth + 1)
+            # `if helper(...):` / `if not helper(...):` with a multi-statement helper: the call is evaluated first, so it is hoisted into a temporary
+            # in front of the statement and expanded there
+            if expanded is None and depth < MAX_DEPTH and isinstance(s, ast.If):
+                t = s.test
+                neg = isinstance(t, ast.UnaryOp) and isinstance(t.op, ast.Not)
+                tc = t.operand if neg else t
+                if isinstance(tc, ast.Call):
+                    r = self._resolve(tc, cls_name)
+                    if r is not None and r[0].name != current and _expr_helper(r[0]) is None:
+                        fd, is_method, recv = r
+                        tmp = f"test__inl{self.ctx.k + 1}"
+                        body = _expand_call(fd, tc, is_method, recv, ast.Name(id=tmp, ctx=ast.Store()), self.ctx)
+                        if body is not None:
+                            self.ctx.sites += 1
+                            for b in body:
+                                ast.copy_location(b, s) if not hasattr(b, "lineno") else None
+                                ast.fix_missing_locations(b)
+                            newtest = ast.copy_location(ast.Name(id=tmp, ctx=ast.Load()), tc)
+                            s.test = ast.copy_location(ast.UnaryOp(op=ast.Not(), operand=newtest), t) if neg else newtest
+                            out.extend(self._stmts(body, cls_name, current, depth + 1))
             if expanded is not None:
                 out.extend(expanded)
                 continue
